@@ -13,6 +13,9 @@ PROPS = {
     "C09": P(9, "exploration",
              quick=dict(checks=6000, timeout=600),
              thorough=dict(checks=60000, shards=8, timeout=1800, fuzz=[("FuzzC09", 180)])),
+    "C11": P(11, "exploration",
+             quick=dict(checks=4000, timeout=600),
+             thorough=dict(checks=40000, shards=8, timeout=1800)),
     "C12": P(12, "exploration",
              quick=dict(checks=3000, timeout=600),
              thorough=dict(checks=30000, shards=8, timeout=1800)),
